@@ -98,7 +98,12 @@ func (d *TData) ImageBytes(name string) []byte {
 func (d *TData) ToLib() *document.TemplateData { return d.ToLibIn("") }
 
 // ToLibIn is ToLib with a directory in which the image files of file-based entries are written (they must exist when the data is rendered).
-func (d *TData) ToLibIn(dir string) *document.TemplateData {
+func (d *TData) ToLibIn(dir string) *document.TemplateData { return d.toLibIn(dir, false) }
+
+// ToLibReplacing is ToLibIn with image files named after their placeholder alone (see toLibIn).
+func (d *TData) ToLibReplacing(dir string) *document.TemplateData { return d.toLibIn(dir, true) }
+
+func (d *TData) toLibIn(dir string, replacing bool) *document.TemplateData {
 	td := document.NewTemplateData()
 	var cp func(v any) any
 	cp = func(v any) any {
@@ -155,6 +160,11 @@ func (d *TData) ToLibIn(dir string) *document.TemplateData {
 		if (via == 1 || via == 3) && dir != "" && data != nil {
 			_ = os.MkdirAll(dir, 0o755)
 			path = filepath.Join(dir, fmt.Sprintf("%s-%d.%s", k, d.imgField(k, 3), fmtNames[pickIdx(d.imgField(k, 0), 3)]))
+			if replacing {
+				// the file is named after the placeholder alone: a later data set that gives the placeholder another picture of that
+				// format REPLACES the file's content under the same name (only for worlds that render one after the other)
+				path = filepath.Join(dir, fmt.Sprintf("%s.%s", k, fmtNames[pickIdx(d.imgField(k, 0), 3)]))
+			}
 			if os.WriteFile(path, data, 0o644) != nil {
 				path = ""
 			}
@@ -206,6 +216,9 @@ func (w *World) opTplRender(dst *Doc, op sim.Op, o *Obs) {
 	}
 	data := ParseTData(op.Str(0))
 	lib := data.ToLibIn(filepath.Join(w.Tmp, "tplimg"))
+	if op.Int(4) == 1 {
+		lib = data.ToLibReplacing(filepath.Join(w.Tmp, "tplimg"))
+	}
 	if op.Int(3) == 1 {
 		// ONE data object for all renders of this world, as a mail merge with a shared logo uses it: the images
 		// (and every other entry) stay the objects they were at the first render, only the variables are set again
